@@ -89,6 +89,8 @@ def run(ctx):
     total = 0
     bytype = {}
     for t in traces:
+        if not os.path.exists(t):     # a worker killed before it wrote anything
+            continue
         events = vf.read_ndjson(t)
         if not events:
             continue
